@@ -49,6 +49,11 @@ func (c10) Gen(seed uint64, run int, tier string) *Plan {
 	p.Knobs["hist"] = hist
 	p.Knobs["chunk"] = chunk
 	p.Knobs["ops"] = 1
+	if r.Intn(6) == 0 {
+		// the very first start is killed while it creates the database (between two of its
+		// statements); the next start has to cope with whatever file that left behind
+		p.Knobs["initkill"] = 1 + r.Intn(4)
+	}
 	n := 4 + r.Intn(14)
 	agents := 0
 	for i := 0; i < n; i++ {
@@ -83,8 +88,12 @@ func (c10) Gen(seed uint64, run int, tier string) *Plan {
 			p.Actions = append(p.Actions, Action{Kind: "unlink", A: r.Intn(agents), B: r.Intn(agents)})
 		case x < 88:
 			p.Actions = append(p.Actions, Action{Kind: "ladd", B: r.Intn(3), C: r.Intn(3), D: r.Intn(1 << 20)})
-		case x < 94:
+		case x < 92:
 			p.Actions = append(p.Actions, Action{Kind: "lremove", B: r.Intn(3), C: r.Intn(3)})
+		case x < 94:
+			// one operator removes a listener; while its server is still shutting down another
+			// operator adds a listener of the same name again
+			p.Actions = append(p.Actions, Action{Kind: "lreadd", B: r.Intn(3), C: 0, D: r.Intn(1 << 20), A: r.Intn(400)})
 		default:
 			p.Actions = append(p.Actions, Action{Kind: "ledit", B: r.Intn(3), D: r.Intn(1 << 20)})
 		}
@@ -206,6 +215,37 @@ func (c *c10Run) settle() bool {
 	return true
 }
 
+// steps runs the scheduler for n steps (no quiescent state is recorded); false when the kill
+// point was reached first.
+func (c *c10Run) steps(n uint64) bool {
+	s := c.w.Sim
+	if c.kill == 0 {
+		s.RunSteps(n)
+		return true
+	}
+	if s.OnSQL == nil {
+		s.OnSQL = func() {
+			if c.w.TS != nil && len(c.inflight) < 256 {
+				c.inflight = append(c.inflight, c10Snap(c.w))
+			}
+		}
+	}
+	if c.kill <= c.base {
+		c.killed = true
+		return false
+	}
+	target := s.Step + n
+	if k := c.kill - c.base; k < target {
+		target = k
+	}
+	s.RunToStep(target, false)
+	if s.Step >= c.kill-c.base {
+		c.killed = true
+		return false
+	}
+	return true
+}
+
 func (c *c10Run) checkin(d *world.Demon) bool {
 	pk := d.Out
 	d.Out = nil
@@ -224,6 +264,7 @@ func (c *c10Run) play(record bool) (states []c10State, stepsAt []uint64) {
 	c.record = record
 	defer func() { states, stepsAt = c.states, c.stepsAt }()
 	snap := func() {}
+	var o2 *world.Operator // second operator, logs in when first needed
 	o := w.NewOperator(p.Cfg.Operators[0].Name, p.Cfg.Operators[0].Password)
 	c.wit = o
 	o.WS = w.DialWS("/havoc/")
@@ -244,6 +285,9 @@ func (c *c10Run) play(record bool) (states []c10State, stepsAt []uint64) {
 		}
 		c.acts = i
 		w.Sim.SetAction(i)
+		if os.Getenv("VERIF_DEBUG") != "" {
+			fmt.Fprintf(os.Stderr, "C10 play kill=%d action %d (%s) starts at step %d now=%v\n", c.kill, i, a.Kind, c.step(), w.Sim.Now().Format("15:04:05.000"))
+		}
 		ok := true
 		switch a.Kind {
 		case "register":
@@ -303,6 +347,7 @@ func (c *c10Run) play(record bool) (states []c10State, stepsAt []uint64) {
 				c.res.HarnessError = "restart inside history: " + err.Error()
 				return
 			}
+			o2 = nil
 			o = w.NewOperator(p.Cfg.Operators[0].Name, p.Cfg.Operators[0].Password)
 			c.wit = o
 			o.WS = w.DialWS("/havoc/")
@@ -383,23 +428,30 @@ func (c *c10Run) play(record bool) (states []c10State, stepsAt []uint64) {
 			pb.Int32(world.PivotSMBDisconnect).Int32(1).Int32(X.ID)
 			P.Out = append(P.Out, world.Pkg{Cmd: world.CmdPivot, RID: 0, Body: pb.B})
 			ok = c.checkin(P)
-		case "ladd":
-			name := fmt.Sprintf("L%d", a.B)
-			cr := simrt.NewRand(uint64(a.D))
-			var info map[string]any
-			switch a.C % 3 {
-			case 0:
-				info = map[string]any{"Name": name, "Protocol": "Http", "HostBind": "10.0.0.5", "Hosts": []string{"10.0.0.5", "a.example.com, b.example.com"}[cr.Intn(2)],
-					"Headers":      []string{"", "X-Tok: " + c10Strings[cr.Intn(len(c10Strings))], "X-A: 1, X-B: two"}[cr.Intn(3)],
-					"Uris":         []string{"", "/a", "/a, /b?c=1"}[cr.Intn(3)],
-					"HostRotation": "round-robin", "PortBind": fmt.Sprint(9000 + a.B), "PortConn": []string{"", "443", fmt.Sprint(9000 + a.B)}[cr.Intn(3)],
-					"HostHeader": []string{"", "cdn.example.com"}[cr.Intn(2)], "UserAgent": []string{"", "Mozilla/5.0 (X11)", "007"}[cr.Intn(3)], "Secure": "false"}
-			case 1:
-				info = map[string]any{"Name": name, "Protocol": "Smb", "PipeName": "pipe_" + c10Strings[cr.Intn(len(c10Strings))]}
-			case 2:
-				info = map[string]any{"Name": name, "Protocol": "External", "Endpoint": fmt.Sprintf("ep%d", a.D%1000)}
+		case "lreadd":
+			if o2 == nil {
+				o2 = w.NewOperator(p.Cfg.Operators[1].Name, p.Cfg.Operators[1].Password)
+				o2.WS = w.DialWS("/havoc/")
+				if o2.WS == nil {
+					return
+				}
+				if ok = c.settle(); !ok {
+					break
+				}
+				o2.SendJSON(o2.AuthMessage())
+				if ok = c.settle(); !ok {
+					break
+				}
 			}
-			o.SendJSON(world.MakePkg(world.EvListener, world.ListenerAdd, o.Name, info))
+			o.SendJSON(world.MakePkg(world.EvListener, world.ListenerRemove, o.Name, map[string]any{"Name": fmt.Sprintf("L%d", a.B)}))
+			if ok = c.steps(uint64(a.A)); !ok {
+				break
+			}
+			o2.SendJSON(world.MakePkg(world.EvListener, world.ListenerAdd, o2.Name, c10ListenerInfo(a)))
+			ok = c.settle()
+			c.res.Probe("listener-re-added-while-shutting-down")
+		case "ladd":
+			o.SendJSON(world.MakePkg(world.EvListener, world.ListenerAdd, o.Name, c10ListenerInfo(a)))
 			ok = c.settle()
 		case "lremove":
 			o.SendJSON(world.MakePkg(world.EvListener, world.ListenerRemove, o.Name, map[string]any{"Name": fmt.Sprintf("L%d", a.B)}))
@@ -494,7 +546,25 @@ func (c10) Exec(p *Plan, dir string) *Result {
 			// killed while the very first boot or the operator login is in progress
 			res.Probe("kill-during-first-boot")
 		}
+		if ik := p.Knob("initkill", 0); ik > 0 {
+			w.InitKillStep = uint64(ik)
+			if err := w.Boot(); err != nil {
+				res.HarnessError = "kill run, first start: " + err.Error()
+				w.Close()
+				break
+			}
+			if w.BootKilled {
+				w.BootKilled = false
+				res.Probe("fault:kill-while-creating-the-database")
+			}
+			w.Crash()
+		}
 		if err := w.Boot(); err != nil {
+			if p.Knob("initkill", 0) > 0 {
+				res.Violate("C10", "restart-fails", "after-kill-while-creating-the-database", "the teamserver does not come up after its very first start was killed while it created the database: "+err.Error(), w.Sim)
+				w.Close()
+				break
+			}
 			res.HarnessError = "kill run: " + err.Error()
 			w.Close()
 			break
@@ -669,7 +739,10 @@ func c10Restart(w *world.World, res *Result, allowed []c10State, why string, act
 	for _, n := range nl {
 		g, have := got.Listeners[n]
 		okRow, mustExist, mayExist := false, true, false
-		for _, s := range allowed {
+		// the registry as it was before each database statement of the operation(s) in flight and
+		// at the instant of the kill counts too: between the two halves of "removed by one
+		// operator, added again by another" there is, legitimately, no such listener
+		for _, s := range append(append([]c10State{}, allowed...), atKill...) {
 			a, ok := s.Listeners[n]
 			if !ok {
 				mustExist = false
@@ -880,4 +953,24 @@ func c10ListenerField(got, want string) string {
 		}
 	}
 	return "config"
+}
+
+// c10ListenerInfo: the ListenerAdd request of an "ladd" / "lreadd" action.
+func c10ListenerInfo(a Action) map[string]any {
+	name := fmt.Sprintf("L%d", a.B)
+	cr := simrt.NewRand(uint64(a.D))
+	var info map[string]any
+	switch a.C % 3 {
+	case 0:
+		info = map[string]any{"Name": name, "Protocol": "Http", "HostBind": "10.0.0.5", "Hosts": []string{"10.0.0.5", "a.example.com, b.example.com"}[cr.Intn(2)],
+			"Headers":      []string{"", "X-Tok: " + c10Strings[cr.Intn(len(c10Strings))], "X-A: 1, X-B: two"}[cr.Intn(3)],
+			"Uris":         []string{"", "/a", "/a, /b?c=1"}[cr.Intn(3)],
+			"HostRotation": "round-robin", "PortBind": fmt.Sprint(9000 + a.B), "PortConn": []string{"", "443", fmt.Sprint(9000 + a.B)}[cr.Intn(3)],
+			"HostHeader": []string{"", "cdn.example.com"}[cr.Intn(2)], "UserAgent": []string{"", "Mozilla/5.0 (X11)", "007"}[cr.Intn(3)], "Secure": "false"}
+	case 1:
+		info = map[string]any{"Name": name, "Protocol": "Smb", "PipeName": "pipe_" + c10Strings[cr.Intn(len(c10Strings))]}
+	case 2:
+		info = map[string]any{"Name": name, "Protocol": "External", "Endpoint": fmt.Sprintf("ep%d", a.D%1000)}
+	}
+	return info
 }
